@@ -33,6 +33,14 @@ class DefinedError(Exception):
         self.kwargs = kwargs
 
 
+class DefinedSubError(DefinedError):
+    pass
+
+
+class UndefSubError(DefinedError):
+    pass
+
+
 class UndefinedError(Exception):
     def __init__(self, *args, **kwargs):
         Exception.__init__(self, *args)
@@ -94,18 +102,20 @@ def one(kind, reg, tb, sername, shape, uri_app):
     callee, ct = joined()
     caller, rt = joined()
     callee.traceback_app = tb
-    uris = {"decorated": "com.myapp.error.decorated", "defined": "com.myapp.error.defined"}
+    uris = {"decorated": "com.myapp.error.decorated", "defined": "com.myapp.error.defined", "definedsub": "com.myapp.error.definedsub"}
     callee.define(DecoratedError)
     callee.define(DefinedError, "com.myapp.error.defined")
-    cls = {"app": None, "decorated": DecoratedError, "defined": DefinedError, "undefined": UndefinedError}[kind]
+    callee.define(DefinedSubError, "com.myapp.error.definedsub")      # after its base class
+    cls = {"app": None, "decorated": DecoratedError, "defined": DefinedError, "undefined": UndefinedError,
+           "definedsub": DefinedSubError, "undefsub": UndefSubError}[kind]
     expected_uri = uri_app if kind == "app" else uris.get(kind, "wamp.error.runtime_error")
     regcls = None
     if reg == "same":
-        regcls = DecoratedError if kind == "decorated" else DefinedError
+        regcls = {"decorated": DecoratedError, "defined": DefinedError, "definedsub": DefinedSubError}[kind]
         if kind == "decorated":
             caller.define(DecoratedError)
         else:
-            caller.define(DefinedError, expected_uri)
+            caller.define(regcls, expected_uri)
     elif reg == "badctor":
         caller.define(BadCtor, expected_uri)
 
@@ -130,7 +140,7 @@ def one(kind, reg, tb, sername, shape, uri_app):
         obs["replied"] = len(errs) == 1 and len(ct.sent) == 1
         if errs:
             em = errs[0]
-            obs["wireUri"] = "carried" if (kind == "app" and em.error == uri_app) else ("registered" if em.error == uris.get(kind) else ("runtime" if em.error == "wamp.error.runtime_error" else "other:" + str(em.error)))
+            obs["wireUri"] = "carried" if (kind == "app" and em.error == uri_app) else ("registered" if kind in uris and em.error == uris.get(kind) else ("runtime" if em.error == "wamp.error.runtime_error" else "other:" + str(em.error)))
             wk = dict(em.kwargs or {})
             obs["tbOnWire"] = "traceback" in wk
             wk.pop("traceback", None)
@@ -172,9 +182,9 @@ def main():
     inp = driver_in()
     rng = random.Random(int(os.environ.get("VERIF_SEED", "0")) * 31 + 7)
     traces = []
-    for kind in ("app", "decorated", "defined", "undefined"):
+    for kind in ("app", "decorated", "defined", "undefined", "definedsub", "undefsub"):
         for reg in ("same", "badctor", "none"):
-            if reg == "same" and kind in ("app", "undefined"):
+            if reg == "same" and kind in ("app", "undefined", "undefsub"):
                 continue      # no class of this driver is registered for an arbitrary / the runtime-error URI
             for tb in (False, True):
                 for sername in SERS:
